@@ -29,6 +29,26 @@ def r1_one_whitespace_predicate(ctx):
             # explicit byte set?
             ctx.bad("skip-predicate|%s|none" % fid.split("::")[-1], f.where(), "%s no longer skips layout with a whitespace predicate" % fid.split("::")[-1])
     ctx.floor("whitespace-skipping loops", n, 2)
+    # the skip is exhaustive: whatever follows it (the comparison with the next word, the return to the token dispatcher)
+    # is reached only through the loop's own exit - no shortcut that steps over a fixed number of bytes
+    for fid in (LEX + "skip_whitespace", TCW):
+        f = ctx.need(fid)
+        preds = [c for c in f.calls() if (c.callee or "").split("::")[-1] == "is_ascii_whitespace" and c.block in f.reach_from_succ(c.block)]
+        if not preds:
+            continue
+        P = preds[0].block
+        cycle = {b for b in f.reach_from_succ(P) if P in f.reach_from_succ(b)} | {P}
+        head = min(cycle, key=lambda b: len(f.dominators(b)))
+        short = fid.split("::")[-1]
+        if short == "try_consume_word":
+            targets = {c.block for c in f.calls() if (c.callee or "").split("::")[-1] in ("eq", "ne") or "PartialEq" in (c.callee or "")} or set(f.exits())
+        else:
+            targets = set(f.exits())
+        r = f.reach([0], removed_nodes=[head])
+        if r & targets:
+            ctx.bad("skip|%s|bypass" % short, f.where(head), "%s can reach %s without going through the exit of its whitespace loop: on that path a run of layout bytes is only partly skipped, so `a  b` (two spaces, a tab after a space, a line break after a space) is read differently from `a b`" % (short, "the word comparison" if short == "try_consume_word" else "its return"))
+        else:
+            ctx.ok("skip|%s|exhaustive" % short, f.where(head), "everything after the skip is dominated by the loop's exit")
 
 
 def r2_tokens_carry_no_layout(ctx):
@@ -191,8 +211,58 @@ def r5_parentheses_add_no_node(ctx):
         ctx.bad("continuation|every-return", pe.where(), "parse_expression has a result that does not pass through the shared continuation (%d definitions of the return place)" % len(rets))
 
 
+def r6_word_is_identifier_bytes(ctx):
+    """A word token consists of identifier bytes only - letters, digits, underscore - so every other byte ends it: `#` (a
+    comment needs no space before it), punctuation, quotes.  The advance in read_word is justified only by an identifier-class
+    test of the byte at the cursor."""
+    from .c07 import subjects
+    IDENT = ("is_alpha_or_underscore", "is_ascii_alphabetic", "is_ascii_digit", "is_ascii_alphanumeric")
+    f = ctx.need(LEX + "read_word")
+    ctx.touch(f)
+
+    def ident_fact(S, labels):
+        si = f.switch_info(S)
+        names = label_names(f, S, labels, si)
+        if si["kind"] == "call" and (si["callee"] or "").split("::")[-1] in IDENT and names == {"true"}:
+            short = (si["callee"] or "").split("::")[-1]
+            return subjects(f, si["call"]["args"][-1] if short != "is_alpha_or_underscore" else si["call"]["args"][0])
+        if si["kind"] == "bin" and si["op"] == "Eq" and names == {"true"} and 95 in (si["a"].get("int"), si["b"].get("int")):
+            return subjects(f, si["a"] if si["b"].get("int") == 95 else si["b"])
+        return None
+    writes = pos_writes(f)
+    n = 0
+    for b, k, st in writes:
+        rhs = sh(ne(f.deep_rvalue(st["rv"])))
+        if rhs != "Add(self.pos,1)":
+            ctx.bad("word|advance-shape|%s" % rhs[:30], f.where(b), "read_word moves the cursor by `%s`, not one identifier byte at a time" % rhs[:50])
+            continue
+        n += 1
+        known = set()
+        for S, al in f.constraints(b):
+            sub = ident_fact(S, al)
+            if sub:
+                known |= sub
+        dec = {}
+        for S, lab in f.deciding(b):
+            dec.setdefault(S, []).append(lab)
+        if dec:
+            common = None
+            for S, labs in dec.items():
+                sub = ident_fact(S, labs)
+                if not sub:
+                    common = set()
+                    break
+                common = sub if common is None else (common & sub)
+            known |= common or set()
+        if "self.pos" in known:
+            ctx.ok("word|identifier-bytes-only", f.where(b), "the cursor moves only over a byte tested alphabetic / digit / underscore")
+        else:
+            ctx.bad("word|identifier-bytes-only", f.where(b), "read_word advances over a byte that is not known to be a letter, digit or underscore (it stops at a list of delimiters instead): a byte missing from that list - `#`, an operator, a bracket - is glued into the word, so `total#comment` no longer reads like `total #comment`")
+    ctx.floor("cursor advances in read_word", n, 1)
+
+
 RULES = [("C10-R1", r1_one_whitespace_predicate), ("C10-R2", r2_tokens_carry_no_layout), ("C10-R3", r3_parser_sees_only_tokens),
-         ("C10-R4", r4_lookahead_rollback), ("C10-R5", r5_parentheses_add_no_node)]
+         ("C10-R4", r4_lookahead_rollback), ("C10-R5", r5_parentheses_add_no_node), ("C10-R6", r6_word_is_identifier_bytes)]
 
 EXPLANATION = (
     "R1: both whitespace-skipping loops of the scanner (between tokens, between the words of a multi-word keyword) use the "
@@ -202,6 +272,9 @@ EXPLANATION = (
     "keyword look-ahead is rolled back - before a word is returned as an identifier, and between a failed attempt and the "
     "next attempt; try_consume_word writes the cursor only on its success path. R5: the `(` arm of parse_expression allocates "
     "no node. Not decided: equality of behaviour of two concrete layouts (would be a differential run)."
+)
+EXPLANATION += (
+    " Added after seeded changes were missed: R1 whatever follows a whitespace skip (the word comparison in try_consume_word, the return of skip_whitespace) is reachable only through the loop's own exit - no fixed-width shortcut; R5 the group's content is parsed from binding power 0 and every operand - a group included - continues with the enclosing call's min_bp through the one shared continuation; R6 read_word moves the cursor only over a byte tested alphabetic / digit / underscore, so every other byte - `#` included - ends a word."
 )
 ASSUMPTIONS = ["layout bytes are exactly those accepted by u8::is_ascii_whitespace"]
 TRUSTED = ["rustc nightly MIR", "nsx exporter", "nsverif reachability"]
